@@ -8,6 +8,8 @@
 import Bkl.Process2
 import BklProofs.Lemmas.Process1
 import BklProofs.Lemmas.C10Inline
+import BklProofs.Lemmas.C10Nested
+import BklProofs.Lemmas.C10NestedPaths
 set_option linter.unusedVariables false
 namespace Bkl
 
@@ -1166,5 +1168,535 @@ example (fuel : Nat) (docs : List Val) :
     (x := .map [("a", .map [("y", .int 2)]), ("b", .map [("x", .int 1), ("y", .int 2)])])
     (by decide) (by decide) (d := 2) (by decide) (by omega) (by decide)]
   rfl
+
+/-! ## end to end, host at ARBITRARY DEPTH inside nested maps
+
+  Setting.  The document root is `.map kvs`; the host sits at the NON-EMPTY key path
+  `π = h :: ρ` through nested maps (`getPath (.map kvs) (h :: ρ) = .ok hostv`): `h` is the
+  top-level key of the entry that contains the host, `ρ` the rest of the path (`ρ = []` is the
+  top-level case of the theorems above).  "Written inline" is the document
+  `c10n_setKeys (.map kvs) (h :: ρ) t`, i.e. the model's own `setPath` along the keys of the path
+  (`c10n_setKeys root π x = setPath root (π.map .key) x`; `c10n_getPath_setKeys`: afterwards the
+  path holds `x`; at `ρ = []` it is `.map (fset kvs h t)`).
+
+  Hypothesis on the rest of the document — `c10n_around h (.map kvs) (h :: ρ) = true`:
+  at EVERY level along the path (the document itself, the entry `h`, …, the map that holds the
+  host) the map is sorted, the key of the path is not a reference key (`refKey k = false`), and
+  the SIBLINGS of the path are `SafeFields h`: they contain no map-level `$merge` key and every
+  reference in them (value of a `$replace` key, `$merge:` / `$replace:` string, leaf or key) is a
+  string or list path into the document whose FIRST key is not `h = π.head` — so no reference
+  outside the host is a prefix of `π`, extends `π`, or even enters the top-level entry that
+  contains the host.  Siblings may freely refer to other top-level entries and to the target.
+  (`c10n_aroundFree`, reference-free siblings, is the `decide`-able special case:
+  `c10n_around_of_free`.)  Maps on the way to the host may even carry a `$replace` key of their
+  own (then neither document ever evaluates the host).
+
+  Depth margin: one level of the depth guard per level of the path, plus the level that following
+  the reference costs: `depth t + π.length + 1 < fuel` (tight at `π.length = 1`:
+  `C10_inline_replace_depth_false`).
+  Helper lemmas: `BklProofs/Lemmas/C10Nested.lean`. -/
+
+/-- **`$replace`, host at depth.**  `hostv` — the value at the key path `h :: ρ` — forwards to
+    `ref`, which denotes the path `ks` holding the reference-free subtree `t`; nothing outside the
+    host reads the top-level entry `h` (`c10n_around`).  Unless `t` needs the last
+    `ρ.length + 2` levels of the depth guard, the document evaluates to the same value (or the
+    same error) as the document with `t` written at `h :: ρ`. -/
+theorem C10_inline_replace_nested_partial {fuel : Nat} {docs : List Val} {kvs : Fields}
+    {h : String} {ρ : List String} {hostv ref t : Val} {ks : List String}
+    (hhost : getPath (.map kvs) (h :: ρ) = .ok hostv)
+    (har : c10n_around h (.map kvs) (h :: ρ) = true)
+    (hfw : Forwards hostv ref) (hp : PathRef ref ks) (ht : getPath (.map kvs) ks = .ok t)
+    (htf : refFree t = true)
+    (hfuel : process1 fuel [] .null none t ≠ .error .circularRef) :
+    Except.map Prod.fst
+        (process1 (fuel + ρ.length + 2) docs (.map kvs) (some []) (.map kvs)) =
+      Except.map Prod.fst
+        (process1 (fuel + ρ.length + 2) docs (c10n_setKeys (.map kvs) (h :: ρ) t) (some [])
+          (c10n_setKeys (.map kvs) (h :: ρ) t)) :=
+  c10n_inline_replace_core hhost har hfw hp ht htf hfuel
+
+/-- the same for an arbitrary non-empty key path `π` (`π.head` in place of `h`), with the depth
+    margin spelled out: `depth t + π.length + 1 < fuel'` -/
+theorem C10_inline_replace_nested_path_partial {fuel' : Nat} {docs : List Val} {kvs : Fields}
+    {π : List String} {hostv ref t : Val} {ks : List String} (hne : π ≠ [])
+    (hhost : getPath (.map kvs) π = .ok hostv)
+    (har : c10n_around (π.head hne) (.map kvs) π = true)
+    (hfw : Forwards hostv ref) (hp : PathRef ref ks) (ht : getPath (.map kvs) ks = .ok t)
+    (htf : refFree t = true) (hd : depth t + π.length + 1 < fuel') :
+    Except.map Prod.fst (process1 fuel' docs (.map kvs) (some []) (.map kvs)) =
+      Except.map Prod.fst
+        (process1 fuel' docs (c10n_setKeys (.map kvs) π t) (some [])
+          (c10n_setKeys (.map kvs) π t)) := by
+  cases π with
+  | nil => exact absurd rfl hne
+  | cons h ρ =>
+    simp only [List.head_cons] at har
+    simp only [List.length_cons] at hd
+    have hfuel : process1 (fuel' - ρ.length - 2) [] .null none t ≠ .error .circularRef :=
+      process1_refFree_ne_circ htf (by omega)
+    have hf : fuel' - ρ.length - 2 + ρ.length + 2 = fuel' := by omega
+    have := c10n_inline_replace_core (docs := docs) hhost har hfw hp ht htf hfuel
+    rw [hf] at this
+    exact this
+
+/-- **Sanity: the top-level theorem is the special case `π = [h]`.**  From the hypotheses of
+    `C10_inline_replace_partial` (its `h1` is not even needed), by
+    `C10_inline_replace_nested_partial` at `ρ = []`. -/
+theorem C10_inline_replace_nested_top {fuel : Nat} {docs : List Val} {kvs : Fields} {h : String}
+    {hostv ref t : Val} {ks : List String}
+    (hs : Fields.SortedKeys kvs) (hh : fget kvs h = some hostv) (hhk : refKey h = false)
+    (hfw : Forwards hostv ref) (hp : PathRef ref ks) (ht : getPath (.map kvs) ks = .ok t)
+    (htf : refFree t = true) (ho : SafeFields h (fdel kvs h) = true)
+    (hfuel : process1 fuel [] .null none t ≠ .error .circularRef) :
+    Except.map Prod.fst (process1 (fuel + 2) docs (.map kvs) (some []) (.map kvs)) =
+      Except.map Prod.fst
+        (process1 (fuel + 2) docs (.map (fset kvs h t)) (some []) (.map (fset kvs h t))) := by
+  have hhost : getPath (.map kvs) [h] = .ok hostv := by simp only [getPath, hh]; rfl
+  have har : c10n_around h (.map kvs) [h] = true :=
+    c10n_around_intro hs hhk ho hh (c10n_around_nil h hostv)
+  have := C10_inline_replace_nested_partial (docs := docs) hhost har hfw hp ht htf hfuel
+  rw [c10n_setKeys_cons [] t hh, c10n_setKeys_nil, List.length_nil, Nat.add_zero] at this
+  exact this
+
+/-- the special case where the siblings at every level are reference-free -/
+theorem C10_inline_replace_nested_refFree_partial {fuel : Nat} {docs : List Val} {kvs : Fields}
+    {h : String} {ρ : List String} {hostv ref t : Val} {ks : List String}
+    (hhost : getPath (.map kvs) (h :: ρ) = .ok hostv)
+    (har : c10n_aroundFree (.map kvs) (h :: ρ) = true)
+    (hfw : Forwards hostv ref) (hp : PathRef ref ks) (ht : getPath (.map kvs) ks = .ok t)
+    (htf : refFree t = true)
+    (hfuel : process1 fuel [] .null none t ≠ .error .circularRef) :
+    Except.map Prod.fst
+        (process1 (fuel + ρ.length + 2) docs (.map kvs) (some []) (.map kvs)) =
+      Except.map Prod.fst
+        (process1 (fuel + ρ.length + 2) docs (c10n_setKeys (.map kvs) (h :: ρ) t) (some [])
+          (c10n_setKeys (.map kvs) (h :: ρ) t)) :=
+  c10n_inline_replace_core hhost (c10n_around_of_free h _ _ har) hfw hp ht htf hfuel
+
+/-- At the level of `processDoc` / `outputDocument` (fuel = the depth guard of process1.go): the
+    referencing document and the document with the subtree written at the host's path produce
+    the same output documents, or the same error. -/
+theorem C10_inline_replace_nested_output_partial {docs : List Val} {env : Vars} {kvs : Fields}
+    {h : String} {ρ : List String} {hostv ref t : Val} {ks : List String}
+    (hhost : getPath (.map kvs) (h :: ρ) = .ok hostv)
+    (har : c10n_around h (.map kvs) (h :: ρ) = true)
+    (hfw : Forwards hostv ref) (hp : PathRef ref ks) (ht : getPath (.map kvs) ks = .ok t)
+    (htf : refFree t = true) (hd : depth t + ρ.length + 2 < depthLimit) :
+    processDoc docs env (.map kvs) =
+      processDoc docs env (c10n_setKeys (.map kvs) (h :: ρ) t) ∧
+    outputDocument docs env (.map kvs) =
+      outputDocument docs env (c10n_setKeys (.map kvs) (h :: ρ) t) := by
+  have := C10_inline_replace_nested_path_partial (fuel' := depthLimit) (docs := docs)
+    (π := h :: ρ) (List.cons_ne_nil h ρ) hhost har hfw hp ht htf
+    (by simp only [List.length_cons]; omega)
+  exact ⟨processDoc_congr this, outputDocument_congr (processDoc_congr this)⟩
+
+-- non-vacuity: `a: {x: 1}`, `p: {q: {h: {$replace: a}, s: 2}}` — the host is three levels deep
+-- (`π = [p, q, h]`); every hypothesis holds, the inline document is
+-- `a: {x: 1}, p: {q: {h: {x: 1}, s: 2}}`, and both documents evaluate to it
+example (fuel : Nat) (docs : List Val) :
+    let kvs : Fields := [("a", .map [("x", .int 1)]),
+      ("p", .map [("q", .map [("h", .map [("$replace", .str "a")]), ("s", .int 2)])])]
+    let out : Val := .map [("a", .map [("x", .int 1)]),
+      ("p", .map [("q", .map [("h", .map [("x", .int 1)]), ("s", .int 2)])])]
+    getPath (.map kvs) ["p", "q", "h"] = .ok (.map [("$replace", .str "a")]) ∧
+    c10n_aroundFree (.map kvs) ["p", "q", "h"] = true ∧
+    c10n_around "p" (.map kvs) ["p", "q", "h"] = true ∧
+    Forwards (.map [("$replace", .str "a")]) (.str "a") ∧ PathRef (.str "a") ["a"] ∧
+    getPath (.map kvs) ["a"] = .ok (.map [("x", .int 1)]) ∧
+    refFree (.map [("x", .int 1)]) = true ∧
+    depth (.map [("x", .int 1)]) + ["q", "h"].length + 2 < depthLimit ∧
+    c10n_setKeys (.map kvs) ["p", "q", "h"] (.map [("x", .int 1)]) = out ∧
+    Except.map Prod.fst
+      (process1 (fuel + 2 + 2 + 2) docs (.map kvs) (some []) (.map kvs)) = .ok out ∧
+    Except.map Prod.fst (process1 (fuel + 2 + 2 + 2) docs out (some []) out) = .ok out := by
+  intro kvs out
+  have hfree : c10n_aroundFree (.map kvs) ["p", "q", "h"] = true := by decide
+  have hset : c10n_setKeys (.map kvs) ["p", "q", "h"] (.map [("x", .int 1)]) = out := by decide
+  have hout : Except.map Prod.fst (process1 (fuel + 2 + 2 + 2) docs out (some []) out) =
+      .ok out := by
+    rw [process1_plain_eval docs _ _ (x := out) (by decide) (by decide) (d := 4) (by decide)
+      (by omega) (by decide)]
+    rfl
+  refine ⟨rfl, hfree, c10n_around_of_free "p" _ _ hfree,
+    forwards_map_replace (by decide) (by decide), pathRef_simpleKey simpleKey_a, rfl, by decide,
+    by decide, hset, ?_, hout⟩
+  have hdt : depth (.map [("x", .int 1)]) < fuel + 2 := by
+    have : depth (.map [("x", .int 1)]) = 1 := by decide
+    omega
+  have key := C10_inline_replace_nested_partial (docs := docs) (fuel := fuel + 2) (h := "p")
+    (ρ := ["q", "h"]) (kvs := kvs)
+    (t := .map [("x", .int 1)]) (hostv := .map [("$replace", .str "a")]) (ref := .str "a")
+    rfl (c10n_around_of_free "p" _ _ hfree) (forwards_map_replace (by decide) (by decide))
+    (pathRef_simpleKey simpleKey_a) rfl (by decide)
+    (process1_refFree_ne_circ (by decide) hdt)
+  rw [hset] at key
+  exact key.trans hout
+
+-- non-vacuity of the sibling condition beyond reference-free siblings:
+-- `a: {x: 1}`, `p: {q: {h: {$replace: a}, s: "$replace:a"}}`, `r: {$replace: a}` — the sibling
+-- `s` of the host and the top-level entry `r` refer to the target `a`, not into the entry `p`
+example :
+    let kvs : Fields := [("a", .map [("x", .int 1)]),
+      ("p", .map [("q", .map [("h", .map [("$replace", .str "a")]),
+                              ("s", .str ("$replace:" ++ "a"))])]),
+      ("r", .map [("$replace", .str "a")])]
+    getPath (.map kvs) ["p", "q", "h"] = .ok (.map [("$replace", .str "a")]) ∧
+    c10n_around "p" (.map kvs) ["p", "q", "h"] = true := by
+  intro kvs
+  refine ⟨rfl, ?_⟩
+  have hsa := safeStrRef_a "p" (by decide)
+  have hnil : SafeFields "p" [] = true := rfl
+  refine c10n_around_intro (c := .map [("q", .map [("h", .map [("$replace", .str "a")]),
+      ("s", .str ("$replace:" ++ "a"))])]) (by decide) (by decide) ?_ (by decide) ?_
+  · have hfd : fdel kvs "p" =
+        [("a", .map [("x", .int 1)]), ("r", .map [("$replace", .str "a")])] := by decide
+    rw [hfd]
+    apply safeFields_of_mem
+    intro q hq
+    simp only [List.mem_cons, List.not_mem_nil, or_false] at hq
+    rcases hq with rfl | rfl
+    · exact ⟨by decide, safeStr_of_not_refStr (by decide), fun e => absurd e (by decide),
+        refFree_safe "p" _ (by decide)⟩
+    · exact ⟨by decide, safeStr_of_not_refStr (by decide), fun e => absurd e (by decide),
+        safe_map_replace hsa (by decide)⟩
+  · refine c10n_around_intro (c := .map [("h", .map [("$replace", .str "a")]),
+        ("s", .str ("$replace:" ++ "a"))]) (by decide) (by decide) ?_ (by decide) ?_
+    · have hfd : fdel [("q", Val.map [("h", .map [("$replace", .str "a")]),
+          ("s", .str ("$replace:" ++ "a"))])] "q" = [] := by decide
+      rw [hfd]; exact hnil
+    · refine c10n_around_intro (c := .map [("$replace", .str "a")]) (by decide) (by decide) ?_
+        (by decide) (c10n_around_nil _ _)
+      have hfd : fdel [("h", Val.map [("$replace", .str "a")]),
+          ("s", .str ("$replace:" ++ "a"))] "h" = [("s", .str ("$replace:" ++ "a"))] := by decide
+      rw [hfd]
+      apply safeFields_of_mem
+      intro q hq
+      simp only [List.mem_cons, List.not_mem_nil, or_false] at hq
+      subst hq
+      exact ⟨by decide, safeStr_of_not_refStr (by decide), fun e => absurd e (by decide),
+        safe_str_replace hsa⟩
+
+/-! ### `$merge`, host at depth -/
+
+/-- **`$merge`, host at depth.**  The host at the key path `h :: ρ` is `{$merge: ref, …local…}`;
+    `ref` denotes the path `k :: ks` with `k ≠ h` (the target lies outside the top-level entry
+    that contains the host) holding the reference-free `t`; nothing outside the host reads the
+    top-level entry `h` (`c10n_around`).  If `merge local t` succeeds with `nv`, the document
+    evaluates to the same value (or error) as the document with `nv` written at `h :: ρ` — unless
+    the in-place evaluation of `nv` needs the last `ρ.length + 2` levels of the depth guard. -/
+theorem C10_inline_merge_nested_partial {fuel : Nat} {docs : List Val} {kvs m : Fields}
+    {h k : String} {ρ : List String} {ref t nv : Val} {ks : List String}
+    (hhost : getPath (.map kvs) (h :: ρ) = .ok (.map m))
+    (har : c10n_around h (.map kvs) (h :: ρ) = true)
+    (hm : fget m "$merge" = some ref) (hp : PathRef ref (k :: ks)) (hk : k ≠ h)
+    (ht : getPath (.map kvs) (k :: ks) = .ok t) (htf : refFree t = true)
+    (hn : merge (.map (fdel m "$merge")) t = .ok nv)
+    (hfuel : process1 fuel docs (c10n_setKeys (.map kvs) (h :: ρ) nv)
+      (some ((h :: ρ).map PathElem.key)) nv ≠ .error .circularRef) :
+    Except.map Prod.fst
+        (process1 (fuel + ρ.length + 2) docs (.map kvs) (some []) (.map kvs)) =
+      Except.map Prod.fst
+        (process1 (fuel + ρ.length + 2) docs (c10n_setKeys (.map kvs) (h :: ρ) nv) (some [])
+          (c10n_setKeys (.map kvs) (h :: ρ) nv)) :=
+  c10n_inline_merge_core hhost har hm hp hk ht (Or.inr (Or.inr htf)) hn hfuel
+
+/-- When the referenced value is a map (without the `$replace: true` marker) it need not be
+    reference-free, and neither need the local content: the merged map is evaluated in place of
+    the host in both documents. -/
+theorem C10_inline_merge_nested_map_partial {fuel : Nat} {docs : List Val} {kvs m s : Fields}
+    {h k : String} {ρ : List String} {ref nv : Val} {ks : List String}
+    (hhost : getPath (.map kvs) (h :: ρ) = .ok (.map m))
+    (har : c10n_around h (.map kvs) (h :: ρ) = true)
+    (hm : fget m "$merge" = some ref) (hp : PathRef ref (k :: ks)) (hk : k ≠ h)
+    (ht : getPath (.map kvs) (k :: ks) = .ok (.map s)) (hr : fhasBool s "$replace" true = false)
+    (hn : merge (.map (fdel m "$merge")) (.map s) = .ok nv)
+    (hfuel : process1 fuel docs (c10n_setKeys (.map kvs) (h :: ρ) nv)
+      (some ((h :: ρ).map PathElem.key)) nv ≠ .error .circularRef) :
+    Except.map Prod.fst
+        (process1 (fuel + ρ.length + 2) docs (.map kvs) (some []) (.map kvs)) =
+      Except.map Prod.fst
+        (process1 (fuel + ρ.length + 2) docs (c10n_setKeys (.map kvs) (h :: ρ) nv) (some [])
+          (c10n_setKeys (.map kvs) (h :: ρ) nv)) :=
+  c10n_inline_merge_core hhost har hm hp hk ht (Or.inl ⟨s, rfl, hr⟩) hn hfuel
+
+/-- **Sanity: `C10_inline_merge_partial` is the special case `π = [h]`** (its `h1` is not
+    needed). -/
+theorem C10_inline_merge_nested_top {fuel : Nat} {docs : List Val} {kvs m : Fields} {h k : String}
+    {ref t nv : Val} {ks : List String}
+    (hs : Fields.SortedKeys kvs) (hh : fget kvs h = some (.map m)) (hhk : refKey h = false)
+    (hm : fget m "$merge" = some ref) (hp : PathRef ref (k :: ks)) (hk : k ≠ h)
+    (ht : getPath (.map kvs) (k :: ks) = .ok t) (htf : refFree t = true)
+    (ho : SafeFields h (fdel kvs h) = true)
+    (hn : merge (.map (fdel m "$merge")) t = .ok nv)
+    (hfuel : process1 fuel docs (.map (fset kvs h nv)) (some [.key h]) nv ≠ .error .circularRef) :
+    Except.map Prod.fst (process1 (fuel + 2) docs (.map kvs) (some []) (.map kvs)) =
+      Except.map Prod.fst
+        (process1 (fuel + 2) docs (.map (fset kvs h nv)) (some []) (.map (fset kvs h nv))) := by
+  have hhost : getPath (.map kvs) [h] = .ok (.map m) := by simp only [getPath, hh]; rfl
+  have har : c10n_around h (.map kvs) [h] = true :=
+    c10n_around_intro hs hhk ho hh (c10n_around_nil h _)
+  have hset : c10n_setKeys (.map kvs) [h] nv = .map (fset kvs h nv) := by
+    rw [c10n_setKeys_cons [] nv hh, c10n_setKeys_nil]
+  have := C10_inline_merge_nested_partial (docs := docs) (fuel := fuel) hhost har hm hp hk ht htf
+    hn (by rw [hset]; exact hfuel)
+  rw [hset, List.length_nil, Nat.add_zero] at this
+  exact this
+
+/-- the same at the level of `processDoc` / `outputDocument` -/
+theorem C10_inline_merge_nested_output_partial {docs : List Val} {env : Vars} {kvs m : Fields}
+    {h k : String} {ρ : List String} {ref t nv : Val} {ks : List String}
+    (hhost : getPath (.map kvs) (h :: ρ) = .ok (.map m))
+    (har : c10n_around h (.map kvs) (h :: ρ) = true)
+    (hm : fget m "$merge" = some ref) (hp : PathRef ref (k :: ks)) (hk : k ≠ h)
+    (ht : getPath (.map kvs) (k :: ks) = .ok t) (htf : refFree t = true)
+    (hn : merge (.map (fdel m "$merge")) t = .ok nv) (hlen : ρ.length + 2 ≤ depthLimit)
+    (hfuel : process1 (depthLimit - ρ.length - 2) docs (c10n_setKeys (.map kvs) (h :: ρ) nv)
+      (some ((h :: ρ).map PathElem.key)) nv ≠ .error .circularRef) :
+    processDoc docs env (.map kvs) =
+      processDoc docs env (c10n_setKeys (.map kvs) (h :: ρ) nv) ∧
+    outputDocument docs env (.map kvs) =
+      outputDocument docs env (c10n_setKeys (.map kvs) (h :: ρ) nv) := by
+  have hdl : depthLimit - ρ.length - 2 + ρ.length + 2 = depthLimit := by omega
+  have := C10_inline_merge_nested_partial (docs := docs) hhost har hm hp hk ht htf hn hfuel
+  rw [hdl] at this
+  exact ⟨processDoc_congr this, outputDocument_congr (processDoc_congr this)⟩
+
+-- non-vacuity: `a: {y: 2}`, `p: {q: {h: {$merge: a, x: 1}, s: 2}}`; inline document
+-- `a: {y: 2}, p: {q: {h: {x: 1, y: 2}, s: 2}}`; both evaluate to the latter
+example (fuel : Nat) (docs : List Val) :
+    let kvs : Fields := [("a", .map [("y", .int 2)]),
+      ("p", .map [("q", .map [("h", .map [("$merge", .str "a"), ("x", .int 1)]),
+                              ("s", .int 2)])])]
+    let nv : Val := .map [("x", .int 1), ("y", .int 2)]
+    let out : Val := .map [("a", .map [("y", .int 2)]),
+      ("p", .map [("q", .map [("h", nv), ("s", .int 2)])])]
+    getPath (.map kvs) ["p", "q", "h"] = .ok (.map [("$merge", .str "a"), ("x", .int 1)]) ∧
+    c10n_around "p" (.map kvs) ["p", "q", "h"] = true ∧
+    fget [("$merge", Val.str "a"), ("x", .int 1)] "$merge" = some (.str "a") ∧
+    PathRef (.str "a") ["a"] ∧ "a" ≠ "p" ∧ getPath (.map kvs) ["a"] = .ok (.map [("y", .int 2)]) ∧
+    refFree (.map [("y", .int 2)]) = true ∧
+    merge (.map (fdel [("$merge", Val.str "a"), ("x", .int 1)] "$merge")) (.map [("y", .int 2)]) =
+      .ok nv ∧
+    c10n_setKeys (.map kvs) ["p", "q", "h"] nv = out ∧
+    process1 (fuel + 2) docs out (some (["p", "q", "h"].map PathElem.key)) nv ≠
+      .error .circularRef ∧
+    Except.map Prod.fst
+      (process1 (fuel + 2 + 2 + 2) docs (.map kvs) (some []) (.map kvs)) = .ok out ∧
+    Except.map Prod.fst (process1 (fuel + 2 + 2 + 2) docs out (some []) out) = .ok out := by
+  intro kvs nv out
+  have hfree : c10n_aroundFree (.map kvs) ["p", "q", "h"] = true := by decide
+  have hset : c10n_setKeys (.map kvs) ["p", "q", "h"] nv = out := by decide
+  have hdn : depth nv < fuel + 2 := by
+    have : depth nv = 1 := by decide
+    omega
+  have hne : process1 (fuel + 2) docs out (some (["p", "q", "h"].map PathElem.key)) nv ≠
+      .error .circularRef := refFree_ne_circ (by decide) hdn _ _ _
+  have hout : Except.map Prod.fst (process1 (fuel + 2 + 2 + 2) docs out (some []) out) =
+      .ok out := by
+    rw [process1_plain_eval docs _ _ (x := out) (by decide) (by decide) (d := 4) (by decide)
+      (by omega) (by decide)]
+    rfl
+  refine ⟨rfl, c10n_around_of_free "p" _ _ hfree, by decide, pathRef_simpleKey simpleKey_a,
+    by decide, rfl, by decide, merge_x_y, hset, hne, ?_, hout⟩
+  have key := C10_inline_merge_nested_partial (docs := docs) (fuel := fuel + 2) (h := "p")
+    (k := "a") (ks := []) (kvs := kvs)
+    (ρ := ["q", "h"]) (t := .map [("y", .int 2)]) (nv := nv)
+    (m := [("$merge", .str "a"), ("x", .int 1)]) (ref := .str "a")
+    rfl (c10n_around_of_free "p" _ _ hfree) (by decide) (pathRef_simpleKey simpleKey_a)
+    (by decide) rfl (by decide) merge_x_y (by rw [hset]; exact hne)
+  rw [hset] at key
+  exact key.trans hout
+
+/-! ### the weakest sibling condition: references APART from the host's path
+
+  `c10n_paround π root π = true`: at every level along the host's path `π` the map is sorted, the
+  key of the path is not a reference key, and the siblings of the path are `c10n_pSafeF π`: no
+  map-level `$merge` key, and every reference in them is a string or list key path `p` into the
+  document with `c10n_apart p π` — `p` and `π` differ at some common position, i.e. `p` is
+  neither a prefix of `π` (which would read the host or one of its ancestors) nor an extension of
+  `π` (which would read inside the host).  Unlike `c10n_around`, such a reference MAY enter the
+  top-level entry that contains the host (a sibling `p.q.s` of the host `p.q.h`).
+  `c10n_paround_of_around`: the first-key condition of the theorems above is a special case.
+  The root may be any value and `π` may be empty (the document itself is the host).
+  Helper lemmas: `BklProofs/Lemmas/C10NestedPaths.lean`. -/
+
+/-- **`$replace`, host at depth, references apart from the host's path.** -/
+theorem C10_inline_replace_nested_apart_partial {fuel : Nat} {docs : List Val} {root : Val}
+    {π : List String} {hostv ref t : Val} {ks : List String}
+    (hhost : getPath root π = .ok hostv)
+    (har : c10n_paround π root π = true)
+    (hfw : Forwards hostv ref) (hp : PathRef ref ks) (ht : getPath root ks = .ok t)
+    (htf : refFree t = true)
+    (hfuel : process1 fuel [] .null none t ≠ .error .circularRef) :
+    Except.map Prod.fst (process1 (fuel + π.length + 1) docs root (some []) root) =
+      Except.map Prod.fst
+        (process1 (fuel + π.length + 1) docs (c10n_setKeys root π t) (some [])
+          (c10n_setKeys root π t)) :=
+  c10n_inline_replace_apart_core hhost har hfw hp ht htf hfuel
+
+/-- … at the level of `processDoc` / `outputDocument`, depth margin
+    `depth t + π.length + 1 < depthLimit` -/
+theorem C10_inline_replace_nested_apart_output_partial {docs : List Val} {env : Vars}
+    {root : Val} {π : List String} {hostv ref t : Val} {ks : List String}
+    (hhost : getPath root π = .ok hostv)
+    (har : c10n_paround π root π = true)
+    (hfw : Forwards hostv ref) (hp : PathRef ref ks) (ht : getPath root ks = .ok t)
+    (htf : refFree t = true) (hd : depth t + π.length + 1 < depthLimit) :
+    processDoc docs env root = processDoc docs env (c10n_setKeys root π t) ∧
+    outputDocument docs env root = outputDocument docs env (c10n_setKeys root π t) := by
+  have hfuel : process1 (depthLimit - π.length - 1) [] .null none t ≠ .error .circularRef :=
+    process1_refFree_ne_circ htf (by omega)
+  have hf : depthLimit - π.length - 1 + π.length + 1 = depthLimit := by omega
+  have := c10n_inline_replace_apart_core (docs := docs) hhost har hfw hp ht htf hfuel
+  rw [hf] at this
+  exact ⟨processDoc_congr this, outputDocument_congr (processDoc_congr this)⟩
+
+/-- **Sanity: the first-key theorem is a special case of the apart theorem.**  The statement of
+    `C10_inline_replace_nested_partial`, proved from `C10_inline_replace_nested_apart_partial`. -/
+theorem C10_inline_replace_nested_apart_generalises {fuel : Nat} {docs : List Val} {kvs : Fields}
+    {h : String} {ρ : List String} {hostv ref t : Val} {ks : List String}
+    (hhost : getPath (.map kvs) (h :: ρ) = .ok hostv)
+    (har : c10n_around h (.map kvs) (h :: ρ) = true)
+    (hfw : Forwards hostv ref) (hp : PathRef ref ks) (ht : getPath (.map kvs) ks = .ok t)
+    (htf : refFree t = true)
+    (hfuel : process1 fuel [] .null none t ≠ .error .circularRef) :
+    Except.map Prod.fst
+        (process1 (fuel + ρ.length + 2) docs (.map kvs) (some []) (.map kvs)) =
+      Except.map Prod.fst
+        (process1 (fuel + ρ.length + 2) docs (c10n_setKeys (.map kvs) (h :: ρ) t) (some [])
+          (c10n_setKeys (.map kvs) (h :: ρ) t)) :=
+  C10_inline_replace_nested_apart_partial hhost (c10n_paround_of_around h ρ _ _ har) hfw hp ht
+    htf hfuel
+
+/-- **`$merge`, host at depth, references apart from the host's path.**  The target path `ks`
+    itself is apart from `π` (the target lies neither above nor inside the host); `t` is
+    reference-free. -/
+theorem C10_inline_merge_nested_apart_partial {fuel : Nat} {docs : List Val} {root : Val}
+    {m : Fields} {π : List String} {ref t nv : Val} {ks : List String}
+    (hhost : getPath root π = .ok (.map m))
+    (har : c10n_paround π root π = true)
+    (hm : fget m "$merge" = some ref) (hp : PathRef ref ks) (hk : c10n_apart ks π = true)
+    (ht : getPath root ks = .ok t) (htf : refFree t = true)
+    (hn : merge (.map (fdel m "$merge")) t = .ok nv)
+    (hfuel : process1 fuel docs (c10n_setKeys root π nv)
+      (some (π.map PathElem.key)) nv ≠ .error .circularRef) :
+    Except.map Prod.fst (process1 (fuel + π.length + 1) docs root (some []) root) =
+      Except.map Prod.fst
+        (process1 (fuel + π.length + 1) docs (c10n_setKeys root π nv) (some [])
+          (c10n_setKeys root π nv)) :=
+  c10n_inline_merge_apart_core hhost har hm hp hk ht (Or.inr (Or.inr htf)) hn hfuel
+
+/-- … when the referenced value is a map without the `$replace: true` marker it need not be
+    reference-free -/
+theorem C10_inline_merge_nested_apart_map_partial {fuel : Nat} {docs : List Val} {root : Val}
+    {m s : Fields} {π : List String} {ref nv : Val} {ks : List String}
+    (hhost : getPath root π = .ok (.map m))
+    (har : c10n_paround π root π = true)
+    (hm : fget m "$merge" = some ref) (hp : PathRef ref ks) (hk : c10n_apart ks π = true)
+    (ht : getPath root ks = .ok (.map s)) (hr : fhasBool s "$replace" true = false)
+    (hn : merge (.map (fdel m "$merge")) (.map s) = .ok nv)
+    (hfuel : process1 fuel docs (c10n_setKeys root π nv)
+      (some (π.map PathElem.key)) nv ≠ .error .circularRef) :
+    Except.map Prod.fst (process1 (fuel + π.length + 1) docs root (some []) root) =
+      Except.map Prod.fst
+        (process1 (fuel + π.length + 1) docs (c10n_setKeys root π nv) (some [])
+          (c10n_setKeys root π nv)) :=
+  c10n_inline_merge_apart_core hhost har hm hp hk ht (Or.inl ⟨s, rfl, hr⟩) hn hfuel
+
+/-- … at the level of `processDoc` / `outputDocument` -/
+theorem C10_inline_merge_nested_apart_output_partial {docs : List Val} {env : Vars} {root : Val}
+    {m : Fields} {π : List String} {ref t nv : Val} {ks : List String}
+    (hhost : getPath root π = .ok (.map m))
+    (har : c10n_paround π root π = true)
+    (hm : fget m "$merge" = some ref) (hp : PathRef ref ks) (hk : c10n_apart ks π = true)
+    (ht : getPath root ks = .ok t) (htf : refFree t = true)
+    (hn : merge (.map (fdel m "$merge")) t = .ok nv) (hlen : π.length + 1 ≤ depthLimit)
+    (hfuel : process1 (depthLimit - π.length - 1) docs (c10n_setKeys root π nv)
+      (some (π.map PathElem.key)) nv ≠ .error .circularRef) :
+    processDoc docs env root = processDoc docs env (c10n_setKeys root π nv) ∧
+    outputDocument docs env root = outputDocument docs env (c10n_setKeys root π nv) := by
+  have hf : depthLimit - π.length - 1 + π.length + 1 = depthLimit := by omega
+  have := c10n_inline_merge_apart_core (docs := docs) hhost har hm hp hk ht
+    (Or.inr (Or.inr htf)) hn hfuel
+  rw [hf] at this
+  exact ⟨processDoc_congr this, outputDocument_congr (processDoc_congr this)⟩
+
+-- non-vacuity: `a: {x: 1}`, `p: {q: {h: {$replace: a}, s: 2}, u: {$replace: [p, q, s]}}` — the
+-- entry `u` INSIDE the top-level entry `p` refers to the sibling `p.q.s` of the host `p.q.h`
+-- (first key `p`: excluded by `c10n_around`, admitted by `c10n_paround`)
+example :
+    let root : Val := .map [("a", .map [("x", .int 1)]),
+      ("p", .map [("q", .map [("h", .map [("$replace", .str "a")]), ("s", .int 2)]),
+                  ("u", .map [("$replace", .list [.str "p", .str "q", .str "s"])])])]
+    getPath root ["p", "q", "h"] = .ok (.map [("$replace", .str "a")]) ∧
+    c10n_paround ["p", "q", "h"] root ["p", "q", "h"] = true ∧
+    c10n_apart ["p", "q", "s"] ["p", "q", "h"] = true ∧
+    c10n_apart ["a"] ["p", "q", "h"] = true ∧
+    c10n_apart ["p", "q"] ["p", "q", "h"] = false ∧
+    c10n_apart ["p", "q", "h", "$replace"] ["p", "q", "h"] = false ∧
+    Forwards (.map [("$replace", .str "a")]) (.str "a") ∧ PathRef (.str "a") ["a"] ∧
+    getPath root ["a"] = .ok (.map [("x", .int 1)]) ∧ refFree (.map [("x", .int 1)]) = true ∧
+    depth (.map [("x", .int 1)]) + ["p", "q", "h"].length + 1 < depthLimit ∧
+    c10n_setKeys root ["p", "q", "h"] (.map [("x", .int 1)]) =
+      .map [("a", .map [("x", .int 1)]),
+        ("p", .map [("q", .map [("h", .map [("x", .int 1)]), ("s", .int 2)]),
+                    ("u", .map [("$replace", .list [.str "p", .str "q", .str "s"])])])] := by
+  intro root
+  refine ⟨rfl, ?_, by decide, by decide, by decide, by decide,
+    forwards_map_replace (by decide) (by decide), pathRef_simpleKey simpleKey_a, rfl, by decide,
+    by decide, by decide⟩
+  have hnil : c10n_pSafeF ["p", "q", "h"] [] = true := rfl
+  refine c10n_paround_intro
+    (c := .map [("q", .map [("h", .map [("$replace", .str "a")]), ("s", .int 2)]),
+                ("u", .map [("$replace", .list [.str "p", .str "q", .str "s"])])])
+    (by decide) (by decide) ?_ (by decide) ?_
+  · exact c10n_refFreeFields_pSafe _ _ (by decide)
+  · refine c10n_paround_intro
+      (c := .map [("h", .map [("$replace", .str "a")]), ("s", .int 2)])
+      (by decide) (by decide) ?_ (by decide) ?_
+    · have hfd : fdel [("q", Val.map [("h", .map [("$replace", .str "a")]), ("s", .int 2)]),
+          ("u", .map [("$replace", .list [.str "p", .str "q", .str "s"])])] "q" =
+          [("u", .map [("$replace", .list [.str "p", .str "q", .str "s"])])] := by decide
+      rw [hfd]
+      apply c10n_pSafeF_of_mem
+      intro q hq
+      simp only [List.mem_cons, List.not_mem_nil, or_false] at hq
+      subst hq
+      exact ⟨by decide, c10n_pSafeStr_of_not_refStr (by decide), fun e => absurd e (by decide),
+        c10n_pSafe_map_replace_list (k := "p") (ks := ["q", "s"]) (by decide) (by decide)⟩
+    · refine c10n_paround_intro (c := .map [("$replace", .str "a")]) (by decide) (by decide) ?_
+        (by decide) (c10n_paround_nil _ _)
+      exact c10n_refFreeFields_pSafe _ _ (by decide)
+
+/-- **FALSE without the condition on the siblings INSIDE the top-level entry of the host.**  In
+    `a: {x: 1}`, `p: {h: {$replace: a}, u: {$replace: [p, h, $replace]}}` the host `p.h` and the
+    target `a` satisfy every hypothesis about host and target, and the other top-level entry is
+    reference-free; but the sibling `u` of the host reads the raw `$replace` key of the host — its
+    path `p.h.$replace` extends the host's path, `c10n_apart` fails — and evaluates to the string
+    `a`; with `{x: 1}` written at `p.h` that path does not exist.  (Every fuel ≥ 5.) -/
+theorem C10_inline_replace_nested_false (fuel : Nat) (docs : List Val) :
+    Val.WF (.map c10n_cexRead) ∧
+    getPath (.map c10n_cexRead) ["p", "h"] = .ok (.map [("$replace", .str "a")]) ∧
+    Forwards (.map [("$replace", .str "a")]) (.str "a") ∧ PathRef (.str "a") ["a"] ∧
+    getPath (.map c10n_cexRead) ["a"] = .ok (.map [("x", .int 1)]) ∧
+    refFree (.map [("x", .int 1)]) = true ∧
+    c10n_apart ["p", "h", "$replace"] ["p", "h"] = false ∧
+    c10n_setKeys (.map c10n_cexRead) ["p", "h"] (.map [("x", .int 1)]) =
+      .map [("a", .map [("x", .int 1)]),
+        ("p", .map [("h", .map [("x", .int 1)]),
+                    ("u", .map [("$replace", .list [.str "p", .str "h", .str "$replace"])])])] ∧
+    Except.map Prod.fst
+      (process1 (fuel + 5) docs (.map c10n_cexRead) (some []) (.map c10n_cexRead)) =
+      .ok (.map [("a", .map [("x", .int 1)]),
+                 ("p", .map [("h", .map [("x", .int 1)]), ("u", .str "a")])]) ∧
+    Except.map Prod.fst
+      (process1 (fuel + 5) docs
+        (c10n_setKeys (.map c10n_cexRead) ["p", "h"] (.map [("x", .int 1)])) (some [])
+        (c10n_setKeys (.map c10n_cexRead) ["p", "h"] (.map [("x", .int 1)]))) =
+      .error .refNotFound :=
+  ⟨by decide, rfl, forwards_map_replace (by decide) (by decide), pathRef_simpleKey simpleKey_a,
+   rfl, by decide, by decide, by decide, c10n_cexRead_ref fuel docs,
+   by rw [c10n_cexRead_inline (fuel + 1) docs]; rfl⟩
 
 end Bkl
